@@ -46,4 +46,14 @@ def matmul (j : Json) : Except String Json := do
     | .error e => pure (Json.mkObj [("eq", eq), ("matmul", Json.mkObj [("error", errJ e)])])
   | _, _ => pure (Json.mkObj [("error", "operand")])
 
+/-- {tidy, A, l, r, lket, rket}: is `A.matrix_element(l, r)` accepted; {a, b, aket, bket} → overlap -/
+def matrixElement (j : Json) : Except String Json := do
+  let tidy ← getBool j "tidy"
+  match dimsOfSpec tidy none 32 (← specOf j "A"), dimsOfSpec tidy none 32 (← specOf j "l"), dimsOfSpec tidy none 32 (← specOf j "r") with
+  | .ok A, .ok l, .ok r =>
+    let lket ← getBool j "lket"
+    let rket ← getBool j "rket"
+    pure (Json.mkObj [("matrix_element", matrixElementOk A lket l rket r), ("overlap", overlapOk lket l rket r)])
+  | _, _, _ => pure (Json.mkObj [("error", "operand")])
+
 end Qv.Drv.C02
